@@ -57,3 +57,12 @@ static int ref_from_memory(const int *g, int c, const int *p, int f, int *co)
     if (c == REF_CLS_G) return 2;      /* NEW */
     return 3;                           /* NULL */
 }
+
+/* run the real generated internal_init of every class (sets the key min/range fields, repositories) */
+static __parsec_grid_G_task_t ref_init_task_G;
+static __parsec_grid_H_task_t ref_init_task_H;
+static void ref_init_all(REF_TP_T *tp)
+{
+    ref_init_task_G.taskpool = (parsec_taskpool_t *)tp; grid_G_internal_init(NULL, &ref_init_task_G);
+    ref_init_task_H.taskpool = (parsec_taskpool_t *)tp; grid_H_internal_init(NULL, &ref_init_task_H);
+}
